@@ -548,7 +548,10 @@ def normal_equations(win, b, x, cond, what, unique=True):
         xl, *_ = np.linalg.lstsq(A, bb, rcond=None)
         a2 = np.linalg.norm(A, 2)
         bump('ls_compared_with_lstsq')
-        if not np.linalg.norm(xs - xl) <= 1e-9 * cond * (np.linalg.norm(xl) + np.linalg.norm(bb) / a2) + 1e-290:
+        # forward error of a backward-stable least-squares solve: ≲ ε·(κ₂ + κ₂²·tanθ) with the TRUE κ₂(A) — the
+        # column-normalised `cond` under-estimates it on badly scaled windows
+        k2 = max(float(np.linalg.cond(A)), cond)
+        if not np.linalg.norm(xs - xl) <= 1e-9 * k2 * k2 * (np.linalg.norm(xl) + np.linalg.norm(bb) / a2) + 1e-290:
             return f'{what}: x = {xs} differs from the least-squares solution {xl} (cond {cond:.3g})'
     return None
 
